@@ -207,7 +207,9 @@ def features(v):
 
 def classify(case, i_accepts):
     f = features(bytes(case['v']))
-    feat = 'last-byte-pos=INT64_MAX' if f['f4'] else 'lenient-position-syntax' if f['nonstrict'] else 'other'
+    # a value that is not strict range syntax is explained by the leniency finding whatever else it contains (the lenient
+    # reader may stop before a later spec is looked at); the INT64_MAX class is for strictly well-formed values only
+    feat = 'lenient-position-syntax' if f['nonstrict'] else 'last-byte-pos=INT64_MAX' if f['f4'] else 'other'
     return {'feature': feat, 'ub': bool(case['ub']), 'i_layer': 'accepts' if i_accepts else 'rejects',
             'outcome': 'honoured' if case['parsed'] else 'ignored'}
 
